@@ -1037,7 +1037,8 @@ def d18_13(ctx):
         return MS + b"\x0f\x00" + _st.pack("<H", 7) + fnc + bytes([sizes[ft] * n, fno]) + types[ft] + bytes([el, sub])
 
     rd, wr = drv.methods["_read_tag"], drv.methods["_write_tag"]
-    cases = [("N7:3", "N", 7, 3, 0, 1, _st.pack("<h", 55), 55), ("F8:1{2}", "F", 8, 1, 0, 2, _st.pack("<ff", 1.5, 2.5), [1.5, 2.5]), ("o:2.3", "O", 0, 2, 3, 1, _st.pack("<h", 9), 9), ("B3/17", "B", 3, 1, 0, 1, _st.pack("<h", 2), True)]
+    cases = [("N7:3", "N", 7, 3, 0, 1, _st.pack("<h", 55), 55), ("F8:1{2}", "F", 8, 1, 0, 2, _st.pack("<ff", 1.5, 2.5), [1.5, 2.5]), ("o:2.3", "O", 0, 2, 3, 1, _st.pack("<h", 9), 9), ("B3/17", "B", 3, 1, 0, 1, _st.pack("<h", 2), True), ("L9:3/5", "L", 9, 3, 0, 1, _st.pack("<i", 0x20), True), ("l9:3/0", "L", 9, 3, 0, 1, _st.pack("<i", 0x20), False),
+             ("L9:2", "L", 9, 2, 0, 1, _st.pack("<i", -70000), -70000), ("N7:3/15", "N", 7, 3, 0, 1, _st.pack("<H", 0x8000), True)]
     for addr, ft, fno, el, sub, n, data, want in cases:
         for status in (0, 0x10):
             sent = []
